@@ -916,7 +916,8 @@ func (c *compiler) compileStatementsNeedResult(list []ast.Statement, lastProduci
 			leave()
 		}
 	}()
-	for _, st := range list[lastProducingIdx+1:] {
+	rest := list[lastProducingIdx+1:]
+	for i, st := range rest {
 		if _, ok := st.(*ast.FunctionDeclaration); ok {
 			continue
 		}
@@ -924,6 +925,9 @@ func (c *compiler) compileStatementsNeedResult(list []ast.Statement, lastProduci
 		if leave == nil {
 			if _, ok := st.(*ast.BranchStatement); ok {
 				leave = c.enterDummyMode()
+				// The statements after an unconditional break/continue are dead code and are compiled in a
+				// scope of their own: their let/const/class declarations must be bound in that scope.
+				c.compileLexicalDeclarations(rest[i+1:], true)
 			}
 		}
 	}
